@@ -62,6 +62,15 @@ class StateView:
         raise Unsupported(f"contract clause refers to {name!r}, which the function under verification does not define "
                           f"(the sidecar contract no longer matches the code; visible names: {list(self._names)})")
 
+    def arg(self, name):
+        """the value a parameter of the function under verification had AT ENTRY (a loop invariant that names the parameter directly sees whatever the
+        code has re-bound the name to)"""
+        ins = self._st.ghost.get("__inputs__") or {}
+        if name not in ins:
+            from .symex import Unsupported
+            raise Unsupported(f"contract clause refers to the entry value of {name!r}, which is not a parameter of the function under verification")
+        return wrap(self._ex, self._st, ins[name])
+
     def has(self, name):
         return name in self._names or (self._st.frames and self._st.lookup(name)[0])
 
